@@ -218,7 +218,8 @@ def write_evidence(pid, tier, seed, col, rule, wall, violations, extra=None,
 
 
 def write_replay(pid, failure):
-    d = os.path.join(VERIF, 'replays', pid)
+    base = 'replays' if repo_path() == '/repo' else os.path.join('.build', 'mut_replays')
+    d = os.path.join(VERIF, base, pid)
     os.makedirs(d, exist_ok=True)
     name = h({'b': failure['bucket'], 'c': failure['case']}) + '.json'
     p = os.path.join(d, name)
